@@ -192,8 +192,10 @@ class BorisEndPoint(_BorisBase):
         return [dict(M=M, tau=t) for M in self.Ms(tier) for t in (False, True)]
 
     def build(self, inst, mk):
+        from contracts.common import plant_earlier_end_value
+
         L = self.mk_level(inst, mk)
-        return State(L=L, M=inst['M'], call=L.sweep.compute_end_point)
+        return plant_earlier_end_value(State(L=L, M=inst['M'], call=L.sweep.compute_end_point), L, cp(L.u[inst['M']]))
 
     def post(self, st, old, result, exc):
         L, M, sw, P = st.L, st.M, st.L.sweep, st.L.prob
@@ -212,6 +214,9 @@ class BorisEndPoint(_BorisBase):
         yield 'uend:position', veq(L.uend.pos, pos)
         yield 'uend:velocity', veq(L.uend.vel, vel)
         yield 'uend:new_object', all(L.uend is not u for u in L.u)
+        from contracts.common import earlier_end_value_clause
+
+        yield earlier_end_value_clause(st, L)
         yield from frame_clauses(old, snapshot({'L': L}), frame=['L.uend', 'L.prob'])
 
     def canary(self, st, old, result, exc):
